@@ -364,7 +364,8 @@ func (s *Server) HandleReadWriter(
 func (s *Server) HandleReader(ctx context.Context, reader io.Reader) ([]byte, http.Header, error) {
 	var errorRecoverBuffer windowBuffer
 	bufferedReader := bufio.NewReaderSize(io.TeeReader(reader, &errorRecoverBuffer), bufferSize)
-	requestIsBatch := isBatch(bufferedReader)
+	requestIsBatch, leadingBlanks := isBatch(bufferedReader)
+	errorRecoverBuffer.skippedBytes = leadingBlanks
 
 	var resp *response
 	var header http.Header
@@ -498,17 +499,23 @@ func (s *Server) handleBatchRequest(ctx context.Context, batchReq []json.RawMess
 	return result, finalHeaders, err // todo: fix batch request aggregate header
 }
 
-func isBatch(reader *bufio.Reader) bool {
-	for n := 1; ; n++ {
-		buf, err := reader.Peek(n)
+// isBatch reports whether the first non-blank byte of the request is '['. The leading blanks
+// are consumed (they are insignificant to the JSON decoder), so that their number is not limited
+// by the size of the reader's buffer; the count is returned to map decoder offsets back to the input.
+func isBatch(reader *bufio.Reader) (batch bool, leadingBlanks int) {
+	for {
+		buf, err := reader.Peek(1)
 		if err != nil {
-			return false
+			return false, leadingBlanks
 		}
-		switch buf[n-1] {
+		switch buf[0] {
 		case ' ', '\t', '\r', '\n':
-			continue
+			if _, err := reader.Discard(1); err != nil {
+				return false, leadingBlanks
+			}
+			leadingBlanks++
 		default:
-			return buf[n-1] == '['
+			return buf[0] == '[', leadingBlanks
 		}
 	}
 }
